@@ -216,6 +216,10 @@ func (mp MayPanic) checkFunc(r *Run, f *FuncInfo, inScope map[string]bool) int {
 		n++
 		occ[kind]++
 		label := fmt.Sprintf("%s: %s #%d `%s` cannot panic", f.Name, kind, occ[kind], ExprStr(x))
+		if fz, isFz := mp.IndexOK[f.Name+":"+ExprStr(x)]; !ok && isFz {
+			ok, why = true, "frozen: "+fz
+			r.Exception(label, fz)
+		}
 		if rec, isRec := mp.Recovered[f.Name]; !ok && isRec && kind != "allocation" {
 			ok, why = true, "a panic here is caught: "+rec+" (the input is dropped) — "+why
 		}
